@@ -141,6 +141,90 @@ func mandatory(exp []expEv) int {
 	return n
 }
 
+// plainKV is the harness's own reading of a field text whose meaning is beyond doubt: name=value pairs, separated by
+// commas, of plain characters (no blanks, quotes, braces, separators), names not empty. The stored form is every piece
+// behind a one-byte length prefix, so a piece of more than 255 bytes cannot be stored (tooLong).
+func plainKV(kv string) (bin []byte, tooLong, plain bool) {
+	if kv == "" {
+		return nil, false, true
+	}
+	for _, pair := range strings.Split(kv, ",") {
+		nv := strings.Split(pair, "=")
+		if len(nv) != 2 || len(nv[0]) == 0 {
+			return nil, false, false
+		}
+		for _, piece := range nv {
+			for i := 0; i < len(piece); i++ {
+				c := piece[i]
+				if !(c >= 'a' && c <= 'z' || c >= 'A' && c <= 'Z' || c >= '0' && c <= '9' || c == '_' || c == '.' || c == '-' || c == '@' || c == '>') {
+					return nil, false, false
+				}
+			}
+			if len(piece) > 255 {
+				tooLong = true
+			}
+			bin = append(bin, byte(len(piece)))
+			bin = append(bin, piece...)
+		}
+	}
+	if tooLong {
+		return nil, true, true
+	}
+	return bin, false, true
+}
+
+var errPieceTooLong = fmt.Errorf("a field name or value of more than 255 bytes cannot be stored")
+
+func longestPiece(kv string) int {
+	m := 0
+	for _, pair := range strings.Split(kv, ",") {
+		for _, piece := range strings.Split(pair, "=") {
+			if len(piece) > m {
+				m = len(piece)
+			}
+		}
+	}
+	return m
+}
+
+// writeFields: the binary write-level fields of a request and whether the text is accepted, by the real constructor;
+// for plain texts by the harness's own reading, and the constructor is held against it (oracle class
+// plain-fields-misparsed: e.g. a piece that does not fit the one-byte length prefix accepted and stored mis-framed)
+func writeFields(kv string, complain func(class, detail string)) ([]byte, error) {
+	f, err := field.NewFieldsFromKVString(kv)
+	ref, long, plain := plainKV(kv)
+	if !plain {
+		if err != nil {
+			return nil, err
+		}
+		return []byte(f), nil
+	}
+	if long {
+		if err == nil {
+			complain("plain-fields-misparsed", fmt.Sprintf("NewFieldsFromKVString accepted a field text with a name or value of %d bytes (the length prefix is one byte) and made the %d bytes list %x... of it", longestPiece(kv), len(f), []byte(f)[:min(len(f), 24)]))
+		}
+		return nil, errPieceTooLong
+	}
+	if err != nil || string(f) != string(ref) {
+		complain("plain-fields-misparsed", fmt.Sprintf("NewFieldsFromKVString(%q) = %x, %v; the pairs are %x", kv, []byte(f), err, ref))
+	}
+	return ref, nil
+}
+
+// eventFields: field.Parse of an event's own field text (a text that does not parse gives no fields), held against the
+// harness's own reading for plain texts
+func eventFields(kv string, complain func(class, detail string)) []byte {
+	f := []byte(field.Parse(kv))
+	ref, _, plain := plainKV(kv)
+	if !plain {
+		return f
+	}
+	if string(f) != string(ref) {
+		complain("plain-fields-misparsed", fmt.Sprintf("field.Parse of an event's fields with a longest piece of %d bytes = %d bytes %x...; the harness reads %d bytes (nothing when a piece exceeds 255 bytes)", longestPiece(kv), len(f), f[:min(len(f), 24)], len(ref)))
+	}
+	return ref
+}
+
 // decodable prefix of a raw body: (tags, write-level fields text, declared count, events)
 func decodeBody(body []byte) (tags, flds string, declared int, evs []AE, ok bool) {
 	guarded(func() {
@@ -209,7 +293,7 @@ func runE2E(rp E2EReplay) (*e2eOut, error) {
 	var acks []string
 	var coqReqs []string
 	oversize := map[string]bool{}
-	bothLevels, truncPkt := false, false
+	bothLevels, truncPkt, longField := false, false, false
 
 	for i, rq := range rp.Reqs {
 		switch rq.Kind {
@@ -223,20 +307,26 @@ func runE2E(rp E2EReplay) (*e2eOut, error) {
 			coqReqs = append(coqReqs, GApp("RpcW", fmt.Sprintf("{| w_tags := %s; w_flds := %s; w_evs := %s |}", GStr(rq.Tags), GStr(rq.Flds), gAEs(rq.Aes))))
 			key, kok := normTags(rq.Tags)
 			ntab.add(rq.Tags, []byte(key), kok)
-			wf := addFparse(ftab, rq.Flds)
-			_, ferr := field.NewFieldsFromKVString(rq.Flds)
+			addFparse(ftab, rq.Flds)
+			wf, ferr := writeFields(rq.Flds, fail)
 			for _, e := range rq.Aes {
 				addFparse(ftab, e.Flds)
+			}
+			if longestPiece(rq.Flds) >= 250 {
+				longField = true
 			}
 			// the property: a write the server cannot serve back must be rejected, not acknowledged
 			var bins [][]byte
 			firstBig := -1
 			for k, e := range rq.Aes {
-				ef := field.Parse(e.Flds)
+				ef := eventFields(e.Flds, fail)
 				if len(wf) > 0 && len(ef) > 0 {
 					bothLevels = true
 				}
-				bin := append(append([]byte{}, wf...), []byte(ef)...)
+				if longestPiece(e.Flds) >= 250 {
+					longField = true
+				}
+				bin := append(append([]byte{}, wf...), ef...)
 				bins = append(bins, bin)
 				if firstBig < 0 && int64(recordSize(e.Msg, bin)) > rp.MaxRec {
 					firstBig = k
@@ -316,18 +406,18 @@ func runE2E(rp E2EReplay) (*e2eOut, error) {
 			if ok {
 				key, kok := normTags(t)
 				ntab.add(t, []byte(key), kok)
-				wf := addFparse(ftab, f)
+				addFparse(ftab, f)
 				for _, e := range evs {
 					addFparse(ftab, e.Flds)
 				}
-				_, ferr := field.NewFieldsFromKVString(f)
+				wf, ferr := writeFields(f, fail)
 				if kok && ferr == nil {
 					addKey(key)
 					seg, n := 0, len(evs)
 					var bins [][]byte
 					firstBig := -1
 					for k, e := range evs {
-						bin := append(append([]byte{}, wf...), []byte(field.Parse(e.Flds))...)
+						bin := append(append([]byte{}, wf...), eventFields(e.Flds, fail)...)
 						bins = append(bins, bin)
 						if firstBig < 0 && int64(recordSize(e.Msg, bin)) > rp.MaxRec {
 							firstBig = k
@@ -505,6 +595,9 @@ func runE2E(rp E2EReplay) (*e2eOut, error) {
 	out.nontriv = multiChunk || bothLevels
 	if multiChunk {
 		out.tags = append(out.tags, "e2e:multi-chunk")
+	}
+	if longField {
+		out.tags = append(out.tags, "e2e:field-at-length-limit")
 	}
 	if bothLevels {
 		out.tags = append(out.tags, "e2e:fields-on-both-levels")
